@@ -21,9 +21,10 @@ MatObj.tla : object-level semantics of the concrete types as scripts (element ac
 CMat.tla   : the same for CDense and the complex wrappers over Gaussian integers (plus Conj, Copy, CEqual,
              CEqualApprox).
              Stage "refill" (RefillCasesOf): operations that fill the receiver through a special-case path
-             (Pow(a, 0..3), Scale(0 / 1 / -1, a), the Copy family, MulTri of diagonal factors, DiagFrom, ...)
-             x light operand representations x EVERY receiver state (zero value, pre-sized junk, view into a
-             junk-filled parent whose slots outside the window must stay), not sampled.
+             (Pow(a, 0..3), Exp of the zero matrix, Scale(0 / 1 / -1, a), the Copy family, MulTri of diagonal
+             factors, DiagFrom, ...) x light operand representations x EVERY receiver state (zero value, pre-sized
+             junk, view into a junk-filled parent whose slots outside the window must stay, "reset": emptied by
+             Reset() with its old storage reused), not sampled.
 MatFormat.tla : the text printed by mat.Formatted as a TLA+ string-building operator of the abstract
              matrix and the options; every representation of a matrix must print that text.
 """
@@ -60,7 +61,7 @@ OBJ_GROUPS = [("At", 3, 4, True), ("Set", 3, 4, True), ("Meta", 3, 4, False), ("
 C_GROUPS = [("At", 3, 4, True), ("Chain", 3, 3, False), ("Conj", 3, 4, False), ("Copy", 3, 4, False),
             ("Shape", 3, 4, False), ("Equal", 2, 3, False), ("View", 3, 4, False)]
 # stage "refill" (MatOps.tla RefillCasesOf): operation groups, each one TLC run with every receiver state
-REFILL_GROUPS = [["Pow"], ["Scale", "Apply", "CloneFrom", "Copy"], ["ScaleVec", "CloneFromVec", "CopyVec", "ScaleSym", "CopySym"],
+REFILL_GROUPS = [["Pow", "ExpZero"], ["Scale", "Apply", "CloneFrom", "Copy"], ["ScaleVec", "CloneFromVec", "CopyVec", "ScaleSym", "CopySym"],
                  ["ScaleTri", "MulTri"], ["CopyTri", "DiagFrom"]]
 FMT_SHARDS = 4
 # calls with mismatched operand shapes (a shape panic is demanded; Equal answers false)
